@@ -84,9 +84,23 @@ func genC14(r *rng, tier string, res *Result) {
 				}
 			}
 			ref := map[string][]byte{}
-			keys := make([][]byte, 10)
+			nkeys := 10
+			if i%2 == 1 {
+				nkeys = 90 + r.intn(120) // several index buckets: a scan refills its queue several times
+			}
+			keys := make([][]byte, nkeys)
 			for j := range keys {
 				keys[j] = r.bytes(1 + r.intn(10))
+			}
+			if nkeys > 10 {
+				for _, k := range keys {
+					v := r.bytes(10 + r.intn(60))
+					if err := db.Put(k, v); err == nil {
+						ref[string(k)] = v
+					}
+				}
+				prog = append(prog, fmt.Sprintf("put %d keys", nkeys))
+				res.Tags["runs_with_many_buckets"]++
 			}
 			ops := 60 + r.intn(100)
 			for j := 0; j < ops; j++ {
@@ -307,7 +321,7 @@ func c14Race(r *rng, dir string, withCompact bool) string {
 
 // ---------------------------------------------------------------- C19: recovery cost bounded by the data on disk
 func genC19(r *rng, tier string, res *Result) {
-	n := scale(tier, 60, 400)
+	n := scale(tier, 60, 5000)
 	keySizes := []int{0, 1, 65535}
 	valSizes := []uint32{0, 1, 1 << 20, 1 << 29, 1<<31 - 1}
 	var cases [][2]interface{}
